@@ -3,6 +3,8 @@
 
   audit.py mutants [--matrix] [--suite] [name ...]   catalogue in /verif/mutants
   audit.py seeded  [--matrix] [name ...]              sub-agent changes in /verif/seeded/<id>/patch.diff
+  audit.py benign  [name ...]                         behaviour-preserving sub-agent changes in /verif/benign/<id>/patch.diff:
+                                                      every check must stay silent
   audit.py seeds N                                    false-alarm audit: every quick check with N base seeds
 
 Every patch is applied to a scratch copy of the repository outside /repo and
@@ -77,7 +79,7 @@ def audit_patches(kind, names, matrix, suite):
         items = sorted(f[:-6] for f in os.listdir(d) if f.endswith(".patch"))
         path_of = lambda n: os.path.join(d, n + ".patch")
     else:
-        d = os.path.join(VERIF, "seeded")
+        d = os.path.join(VERIF, kind)   # seeded | benign
         items = sorted(n for n in os.listdir(d) if os.path.exists(os.path.join(d, n, "patch.diff")))
         path_of = lambda n: os.path.join(d, n, "patch.diff")
     if names:
@@ -93,6 +95,9 @@ def audit_patches(kind, names, matrix, suite):
             head = open(patch).read(600)
             m = re.search(r"^# expect: (.*)$", head, re.M)
             expect = [x.strip() for x in m.group(1).split(",")] if m else []
+        elif kind == "benign":
+            expect = []
+            matrix = True
         else:
             meta = json.load(open(os.path.join(d, name, "meta.json")))
             expect = [meta["property"]] if isinstance(meta["property"], str) else list(meta["property"])
